@@ -518,8 +518,10 @@ def main():
         rc = 2
     old = open(OUT).read() if os.path.exists(OUT) else None
     if old != text:
-        with open(OUT, "w") as f:
+        tmp = OUT + ".tmp%d" % os.getpid()
+        with open(tmp, "w") as f:
             f.write(text)
+        os.replace(tmp, OUT)   # atomic: concurrent checks never see a half-written file
     if rc:
         print("py2coq: FAILED (wrote a non-compiling Kernels.v): %s" % text.splitlines()[0])
     return rc
